@@ -505,6 +505,17 @@ def run(ctx, crate):
                       "wide_bar's width is not the columns left on the line", cfg)
             adds = [a for a in wsl.atoms if a[0] == "binop" and a[1] in ("Add", "AddWithOverflow", "Mul")]
             ctx.check(not adds, rule, "never-wider", w.name, c.loc(), "nothing is added to the columns left", "the width given to wide_bar is enlarged", cfg)
+        # "... then background cells": what replaces the placeholder for a wide *bar* is the rendered bar, untrimmed
+        # (background cells may be blanks; trimming them makes the line narrower than the terminal)
+        R_bar = K.variant_reach(w, crate, "style::WideElement", "Bar")
+        reps = [c for c in w.calls(r"(alloc|std|core)::str::<impl str>::replace") if c.bb in R_bar and len(c.args) >= 3]
+        for k, c in enumerate(reps):
+            rsl = w.slice_args(c, [2])
+            if not (rsl.has_call(FB) or any(x.bb in R_bar and x.matches(r"std::fmt::Write::write_fmt", r"(alloc|std)::fmt::format") for x in rsl.calls)):
+                continue
+            trims = sorted({x.path for x in rsl.calls if x.matches(r"core::str::<impl str>::(trim|trim_end|trim_start|trim_matches|trim_end_matches|strip_suffix)") and x.bb in R_bar})
+            ctx.check(not trims, rule, "bar-untrimmed#%d" % k, w.name, c.loc(), "the rendered wide bar replaces the placeholder unmodified",
+                      "the rendered wide bar passes through %s before it is inserted: blank background cells are cut off and the line no longer spans the terminal" % trims, cfg)
 
 
 def rule_char_width_coherent(ctx, crate, rule="R-CHAR-WIDTH-COHERENT"):
